@@ -221,4 +221,59 @@ theorem markerLast_prefix_all (a b : List Item) (h : markerLast (a ++ b) = true)
   simpa using (List.append_eq_nil_iff.mp this).2
 
 
+/-! ### Uninterleaved runs of one thread -/
+
+theorem step_t {g : G} {i : Nat} {stack stack' : List Frame} {s' : Shared}
+    (h : g.threads[i]? = some stack) (hs : stepThread g.sh stack = some (s', stack')) :
+    step g (.t i) = { sh := s', threads := g.threads.set i stack' } := by
+  simp [step, h, hs]
+
+theorem get_set_self {g : G} {i : Nat} {stack x : List Frame} (s' : Shared)
+    (h : g.threads[i]? = some stack) :
+    ({ sh := s', threads := g.threads.set i x } : G).threads[i]? = some x := by
+  have hlt : i < g.threads.length := (List.getElem?_eq_some_iff.mp h).1
+  simp [List.getElem?_set_self hlt]
+
+/-- thread `i` runs `n` steps from stack `stack` -/
+def runThread (s : Shared) (stack : List Frame) : Nat → Shared × List Frame
+  | 0 => (s, stack)
+  | n + 1 =>
+    match stepThread s stack with
+    | some (s', stack') => runThread s' stack' n
+    | none => (s, stack)
+
+theorem runThread_none {s : Shared} {stack : List Frame} (h : stepThread s stack = none) (n : Nat) :
+    runThread s stack n = (s, stack) := by
+  cases n <;> simp [runThread, h]
+
+theorem run_replicate {g : G} {i : Nat} {stack : List Frame} (n : Nat)
+    (h : g.threads[i]? = some stack) :
+    run g (List.replicate n (.t i)) =
+      { sh := (runThread g.sh stack n).1, threads := g.threads.set i (runThread g.sh stack n).2 } := by
+  induction n generalizing g stack with
+  | zero =>
+    simp only [List.replicate_zero, run, List.foldl_nil, runThread]
+    have : g.threads.set i stack = g.threads := by
+      have hlt : i < g.threads.length := (List.getElem?_eq_some_iff.mp h).1
+      have := (List.getElem?_eq_some_iff.mp h).2
+      rw [← this]; simp
+    rw [this]
+  | succ n ih =>
+    simp only [List.replicate_succ, run, List.foldl_cons, runThread]
+    cases hs : stepThread g.sh stack with
+    | none =>
+      have : step g (.t i) = g := by simp [step, h, hs]
+      rw [this]
+      have := ih (g := g) h
+      simp only [run] at this
+      rw [this, runThread_none hs]
+    | some r =>
+      obtain ⟨s', stack'⟩ := r
+      rw [step_t h hs]
+      have := ih (g := { sh := s', threads := g.threads.set i stack' }) (get_set_self s' h)
+      simp only [run] at this
+      rw [this]
+      simp
+
+
 end Admission
